@@ -49,9 +49,10 @@ def _root_global(v):
 class Agg:
     """one obligation per (rule, key, verdict): the same fact is usually established on many paths"""
 
-    def __init__(self, rep):
+    def __init__(self, rep, defined=None):
         self.rep = rep
         self.seen = {}
+        self.defined = defined or (lambda fn: True)
 
     def ob(self, rule, key, ok, what, where=None, facts=None):
         k = (rule, key, bool(ok))
@@ -59,6 +60,18 @@ class Agg:
             self.seen[k] += 1
             return ok
         self.seen[k] = 1
+        if not ok and (self.rep.pid, '%s:%s' % (rule, key)) not in self.rep.known:
+            # the same construct is a known finding of a function that no longer exists: the anchor was
+            # renamed (or replaced); cannot tell the old finding from a new one -> undecided, not a violation
+            parts = key.split(':')
+            if len(parts) >= 3:
+                for (pid, kk) in self.rep.known:
+                    kp = kk.split(':')
+                    if pid == self.rep.pid and len(kp) >= 4 and kp[0] == rule and kp[1] == parts[0] and kp[3:] == parts[2:] \
+                            and kp[2] != parts[1] and not self.defined(kp[2]):
+                        self.rep.undecided(rule, key, 'this is the known finding %s, but its anchor function %s vanished and the construct now appears in %s: renamed anchor or new defect, cannot tell (%s)'
+                                           % (kk, kp[2], parts[1], what), where=where)
+                        return ok
         return self.rep.ob(rule, key, ok, what, where=where, facts=facts)
 
     def undecided(self, rule, key, why, where=None):
@@ -99,7 +112,7 @@ def run(P, rep, tier):
     cg = L.CallGraph(P)
     reach_main = cg.reach('main')
     facts = {}
-    rep = Agg(rep)
+    rep = Agg(rep, defined=lambda fn: fn in cg.defs)
     import os, sys, time
     steps = [('R14.1who', lambda: r141_who(P, u, rep, cg, reach_main, facts)),
              ('R14.2', lambda: r142(P, u, rep, cg, facts)),
